@@ -165,11 +165,25 @@ package convert
 // Convert (assumed until the conversion closures are all under contract): a nil error comes with a
 // well-formed value whose type conforms to the requested type and carries no optional-attribute annotations.
 //@ func convert.Convert
-//@   trusted
-//@   ensures (=> (= result.1 nil.Any) (and (conforms (vty result.0) want) (wf_ty (vty result.0)) (wf_marks result.0) (not (has_opt (vty result.0)))))
-//@   ensures (=> (= result.1 nil.Any) (and (wf_deep result.0) (= (vs_of result.0) (cset_of in want)) (=> (not (deep_marked in)) (not (is_marked result.0))) (=> (and (kn in) (is_set_ty (vty in)) (is_set_ty want)) (and (kn result.0) (is_set_ty (vty result.0))))))
+//@   tags C08
+//@   no_panic_assumed
+//@   requires (and (wf_ty want) (wf_deep in))
+// proved: a value that already has the requested type is returned as it is (identity), with a nil error
+//@   ensures[C08] identity: (=> (and (not (has_opt want)) (ty_eq (vty in) want)) (and (= result.0 in) (= result.1 nil.Any)))
+//@   ensures[assumed] (=> (= result.1 nil.Any) (and (conforms (vty result.0) want) (wf_ty (vty result.0)) (wf_marks result.0) (not (has_opt (vty result.0)))))
+//@   ensures[assumed] (=> (= result.1 nil.Any) (and (wf_deep result.0) (= (vs_of result.0) (cset_of in want)) (=> (not (deep_marked in)) (not (is_marked result.0))) (=> (and (kn in) (is_set_ty (vty in)) (is_set_ty want)) (and (kn result.0) (is_set_ty (vty result.0))))))
 // (consequences of the conformance clause for set types, stated for the element types so that the terms exist)
-//@   ensures (=> (and (= result.1 nil.Any) (is_set_ty want) (is_set_ty (vty result.0))) (and (conforms (elem_ty (vty result.0)) (elem_ty want)) (not (has_opt (elem_ty (vty result.0))))))
+//@   ensures[assumed] (=> (and (= result.1 nil.Any) (is_set_ty want) (is_set_ty (vty result.0))) (and (conforms (elem_ty (vty result.0)) (elem_ty want)) (not (has_opt (elem_ty (vty result.0))))))
+//
+// The just-in-time conversion of a value whose type was not known during analysis (C08): a value that
+// already has the wanted type comes back unchanged.
+//@ func convert.dynamicFixup$1
+//@   tags C08
+//@   borrows path
+//@   let WANT (old ($at<cty.Type> wantType))
+//@   requires (and (wf_ty WANT) (wf_deep in))
+//@   ensures[C08] identity: (=> (and (not (has_opt WANT)) (ty_eq (vty in) WANT)) (and (= result.0 in) (= result.1 nil.Any)))
+//@   ensures[C08] conforms: (=> (= result.1 nil.Any) (and (conforms (vty result.0) WANT) (wf_deep result.0)))
 //
 // The wrapper that getConversion puts around every type-specific conversion (C08): marks are taken off
 // and re-applied around a recursive call of the wrapper itself; a dynamic target passes the value through;
